@@ -80,6 +80,11 @@ theorem markerTransfer_ne_ok (s : State) (ad frm to : Addr) (id : ScopeId) (s' :
   simp only [exec, markerTransfer]
   split <;> simp
 
+/-- a marker request for a scope denom never succeeds (`ValidateUnrestictedDenom`) -/
+theorem markerAdd_ne_ok (s : State) (sg : Addr) (id : ScopeId) (n : Nat) (r f : Bool) (s' : State) :
+    exec s (.mkadd sg id n r f) ≠ .ok s' := by
+  simp [exec, markerAdd]
+
 /-- One successful operation: the invariant is kept and every holder change is a `GoodStep`
 (consent of the old holder, deposit permission on a restricted marker) with respect to the
 effective signers. -/
@@ -94,6 +99,7 @@ theorem exec_step {s s' : State} {op : Op} (hinv : Inv s) (h : exec s op = .ok s
   | mwithdraw mk ad to ids => obtain ⟨h1, h2, _⟩ := mwithdraw_step hinv h; exact ⟨h1, h2⟩
   | msend frm outs => obtain ⟨h1, h2, _⟩ := msend_step hinv h; exact ⟨h1, h2⟩
   | mtransfer ad frm to id => exact absurd h (markerTransfer_ne_ok _ _ _ _ _ _)
+  | mkadd sg id n r f => exact absurd h (markerAdd_ne_ok _ _ _ _ _ _ _)
   | fund a dn n => exact fund_step hinv h _ _
   | grant gr ge mt c =>
     simp [exec] at h; subst h
@@ -127,6 +133,7 @@ theorem exec_step_signers {s s' : State} {op : Op} (hinv : Inv s) (h : exec s op
   | mwithdraw mk ad to ids => exact hg
   | msend frm outs => exact hg
   | mtransfer ad frm to id => exact hg
+  | mkadd sg id n r f => exact hg.mono (opEffectiveSigners_sub s _) (by simp [opKind, stepInfo])
   | fund a dn n => exact hg.mono (opEffectiveSigners_sub s _) (by simp [opKind, stepInfo])
   | write id owners ru vo sg => exact hg.mono (opEffectiveSigners_sub s _) (by simp [opKind, stepInfo])
   | delete id sg => exact hg.mono (opEffectiveSigners_sub s _) (by simp [opKind, stepInfo])
@@ -253,6 +260,7 @@ theorem supply_changes_only_by_write_delete {s s' : State} (hinv : Inv s) (op : 
   | mwithdraw mk ad to ids => exact (mwithdraw_step hinv h).2.2 d
   | msend frm outs => exact (msend_step hinv h).2.2 d
   | mtransfer ad frm to id => exact absurd h (markerTransfer_ne_ok _ _ _ _ _ _)
+  | mkadd sg id n r f => exact absurd h (markerAdd_ne_ok _ _ _ _ _ _ _)
   | fund a dn n => exact ((fundAccount_spec h).2.2 d hsd).1
   | grant gr ge mt c => simp [exec] at h; subst h; rfl
   | revoke gr ge mt => rw [(deleteGrant_eq h).1]
@@ -463,6 +471,7 @@ theorem env_ops_move_nothing {s s' : State} (op : Op) (hk : opKind op = .env) (h
   | mwithdraw mk ad to ids => simp [opKind, stepInfo] at hk
   | msend frm outs => simp [opKind, stepInfo] at hk
   | mtransfer ad frm to id => simp [opKind, stepInfo] at hk
+  | mkadd sg id n r f => exact absurd h (markerAdd_ne_ok _ _ _ _ _ _ _)
   | ask sl a p => exact heq ⟨(createAsk_spec h).1, (createAsk_spec h).2.1⟩
   | fill b oid p => simp [opKind, stepInfo] at hk
   | cancel sg oid => exact heq ⟨(cancelOrder_spec h).1, (cancelOrder_spec h).2.1⟩
@@ -542,6 +551,7 @@ theorem messages_never_create_grants {s s' : State} (hinv : Inv s) (op : Op) (hk
         · simp at h
         · exact grantsSub_of_eq (msendLoop_spec hnd h).1.grants
   | mtransfer ad frm to id => exact absurd h (markerTransfer_ne_ok _ _ _ _ _ _)
+  | mkadd sg id n r f => exact absurd h (markerAdd_ne_ok _ _ _ _ _ _ _)
   | fund a dn n => simp [opKind, stepInfo] at hk
   | grant gr ge mt c => simp [opKind, stepInfo] at hk
   | revoke gr ge mt => simp [opKind, stepInfo] at hk
@@ -617,6 +627,7 @@ theorem authz_consent_uses_grant {s s' : State} (hinv : Inv s) (op : Op) (mt : M
   | mwithdraw mk ad to ids => simp [opKind, stepInfo] at hk
   | msend frm outs => simp [opKind, stepInfo] at hk
   | mtransfer ad frm to id => simp [opKind, stepInfo] at hk
+  | mkadd sg id n r f => simp [opKind, stepInfo] at hk
   | fund a dn n => simp [opKind, stepInfo] at hk
   | grant gr ge mt c => simp [opKind, stepInfo] at hk
   | revoke gr ge mt => simp [opKind, stepInfo] at hk
@@ -701,6 +712,7 @@ def RouteConsent (s : State) (hd : Addr) : Op → Prop
     hd = mk ∧ ∃ m, findMarker s mk = some m ∧ m.has admin .withdraw = true
   | .mtransfer .. => False                          -- marker MsgTransfer never carries a scope token
   | .fill _ oid _ => ∃ o ∈ s.orders, o.id = oid ∧ o.seller = hd   -- the holder made the ask order being filled
+  | .mkadd .. => False                              -- a marker request for a scope denom is always refused
   | .fund .. | .grant .. | .revoke .. | .access .. | .mstatus .. | .ask .. | .cancel .. => False
 
 /-- marker MsgTransfer cannot move a scope token: it is rejected in every state -/
@@ -710,6 +722,20 @@ theorem marker_transfer_never_moves_scope_token (s : State) (ad frm to : Addr) (
   cases h : exec s (.mtransfer ad frm to id) with
   | error e => rfl
   | ok s1 => exact absurd h (markerTransfer_ne_ok _ _ _ _ _ _)
+
+/-- a marker request (MsgAddMarker / MsgAddFinalizeActivateMarker, any supply, type, forced-transfer
+flag) for the denom of a scope token is rejected in every state and changes nothing: no marker can
+come to exist on a scope denom, so neither the marker module's mint/burn nor its (forced) transfer
+ever applies to a scope token -/
+theorem marker_add_on_scope_denom_never_accepted (s : State) (sg : Addr) (id : ScopeId) (n : Nat) (r f : Bool) :
+    (applyOp s (.mkadd sg id n r f)).1 = s ∧ (applyOp s (.mkadd sg id n r f)).2 = "err:invalid" := by
+  unfold applyOp
+  cases h : exec s (.mkadd sg id n r f) with
+  | error e =>
+    simp only [exec, markerAdd] at h
+    cases h
+    exact ⟨rfl, rfl⟩
+  | ok s1 => exact absurd h (markerAdd_ne_ok _ _ _ _ _ _ _)
 
 /-- **whichever_message_consent_partial** — for EVERY operation of the extended set (four metadata
 messages, MsgSend, MsgMultiSend, marker MsgWithdraw, marker MsgTransfer, exchange MsgCreateAsk /
@@ -781,6 +807,7 @@ theorem whichever_message_consent_partial {s s' : State} (hinv : Inv s) (op : Op
     subst hmk
     exact ⟨rfl, m, hm, hw⟩
   | mtransfer ad frm to id => exact absurd h (markerTransfer_ne_ok _ _ _ _ _ _)
+  | mkadd sg id n r f => exact absurd h (markerAdd_ne_ok _ _ _ _ _ _ _)
   | fund a dn n => exact hc
   | grant gr ge mt c => exact hc
   | revoke gr ge mt => exact hc
@@ -939,6 +966,7 @@ theorem first_owner_set_only_by_write {s s' : State} (hinv : Inv s) (op : Op) (h
   | mwithdraw mk ad to ids => exact (hkeep (by intros; simp) (by intros; simp)).elim
   | msend frm outs => exact (hkeep (by intros; simp) (by intros; simp)).elim
   | mtransfer ad frm to id => exact (hkeep (by intros; simp) (by intros; simp)).elim
+  | mkadd sg id n r f => exact (hkeep (by intros; simp) (by intros; simp)).elim
   | fund a dn n => exact (hkeep (by intros; simp) (by intros; simp)).elim
   | grant gr ge mt c => exact (hkeep (by intros; simp) (by intros; simp)).elim
   | revoke gr ge mt => exact (hkeep (by intros; simp) (by intros; simp)).elim
@@ -1139,6 +1167,7 @@ theorem step_ok {s : State} (hinv : Inv s) (op : Op) (ids : List ScopeId)
       | mwithdraw _ _ _ _ => simp [deleteOne, stepInfo]
       | msend _ _ => simp [deleteOne, stepInfo]
       | mtransfer _ _ _ _ => simp [deleteOne, stepInfo]
+      | mkadd _ _ _ _ _ => simp [deleteOne, stepInfo]
       | fund _ _ _ => simp [deleteOne, stepInfo]
       | grant _ _ _ _ => simp [deleteOne, stepInfo]
       | revoke _ _ _ => simp [deleteOne, stepInfo]
